@@ -28,24 +28,24 @@ import (
 )
 
 type l2Profile struct {
-	Prop     string
-	Blocks   [2]int
-	MaxTx    int
-	W        map[string]int
-	Crash    int
-	DepFault int
-	GasAbort int
-	Hooks    int // % of deposits carrying a payload
-	BadRcpt  int // % of deposits with a malformed / blocked recipient
-	Plans    bool
-	Reimport int // % of blocks preceded by a restart of the chain from its exported genesis
-	ClientID string // when set, the genesis bridge info is present and bound to this L1 light client
+	Prop            string
+	Blocks          [2]int
+	MaxTx           int
+	W               map[string]int
+	Crash           int
+	DepFault        int
+	GasAbort        int
+	Hooks           int // % of deposits carrying a payload
+	BadRcpt         int // % of deposits with a malformed / blocked recipient
+	Plans           bool
+	Reimport        int    // % of blocks preceded by a restart of the chain from its exported genesis
+	ClientID        string // when set, the genesis bridge info is present and bound to this L1 light client
 	ForceBridgeInfo bool
 	NodeMinGas      string   // node-local min gas prices of the world's own node
 	ExtraDenoms     []string // additional native denoms every user holds (fee denoms)
 	WhaleFees       bool
-	Pairs    []string
-	NonTriv  func(w *l2World) bool
+	Pairs           []string
+	NonTriv         func(w *l2World) bool
 }
 
 // l1Deposit is what L1 emitted for one sequence (fabricated in the L2-only world).
@@ -67,43 +67,44 @@ type l2World struct {
 	enc node.Encoding
 	eng *engine.Engine
 
-	users     []sdk.AccAddress
-	ustr      []string
-	keyed     []string // labels of users with signing keys (hook signers)
-	executors []string
-	outsider  string
-	admin     string
-	bases     []string
-	bridgeID  uint64
-	now       time.Time
-	deps      map[uint64]*l1Deposit
-	valPool   []string // labels of candidate validators
-	plans     []node.PlanReg
-	planAt    map[uint64]*node.PlanReg
-	prevDig   map[string][32]byte
-	succ      map[string]int
-	lastStart map[string]int64 // bonded set at the start of the current block (operator -> power)
-	hist      map[int64]map[string]int64 // height -> bonded set (pubkey hex -> power) at the start of that height
-	avoidKnown bool
-	planKey   map[uint64]string // plan height -> validator key label
-	planOp    map[uint64]string // plan height -> operator label
+	users              []sdk.AccAddress
+	ustr               []string
+	keyed              []string // labels of users with signing keys (hook signers)
+	executors          []string
+	outsider           string
+	admin              string
+	bases              []string
+	bridgeID           uint64
+	now                time.Time
+	deps               map[uint64]*l1Deposit
+	valPool            []string // labels of candidate validators
+	plans              []node.PlanReg
+	planAt             map[uint64]*node.PlanReg
+	prevDig            map[string][32]byte
+	succ               map[string]int
+	lastStart          map[string]int64           // bonded set at the start of the current block (operator -> power)
+	hist               map[int64]map[string]int64 // height -> bonded set (pubkey hex -> power) at the start of that height
+	avoidKnown         bool
+	planKey            map[uint64]string // plan height -> validator key label
+	planOp             map[uint64]string // plan height -> operator label
 	histEntriesAtBegin uint32
-	histWritten map[int64]bool
-	noWrap    bool
-	ownAll    bool
-	replicas  []*l2Replica
-	recent    [][]byte // recently broadcast transactions (client traffic re-uses them)
-	lenient   bool     // see l1World
-	sidePct   int      // % of schedule points with client traffic on discarded branches
-	feeBook   []feeEntry // declared fee per tx of the block being executed (C20); nil = fees are zero
-	genesis   *node.L2Genesis
-	pendingHost []node.HostSetUpdate
-	l1Rcpts   []string // valid L1 recipient strings (set by the two-chain world)
-	lastRes   *abci.ResponseFinalizeBlock
-	lastFired []bool
-	lastCalls [][]string
-	planClass string
-	opts      node.L2Options
+	histWritten        map[int64]bool
+	noWrap             bool
+	ownAll             bool
+	replicas           []*l2Replica
+	recent             [][]byte   // recently broadcast transactions (client traffic re-uses them)
+	planExecs          string     // the executor list installed by the last executor-change plan (printed form)
+	lenient            bool       // see l1World
+	sidePct            int        // % of schedule points with client traffic on discarded branches
+	feeBook            []feeEntry // declared fee per tx of the block being executed (C20); nil = fees are zero
+	genesis            *node.L2Genesis
+	pendingHost        []node.HostSetUpdate
+	l1Rcpts            []string // valid L1 recipient strings (set by the two-chain world)
+	lastRes            *abci.ResponseFinalizeBlock
+	lastFired          []bool
+	lastCalls          [][]string
+	planClass          string
+	opts               node.L2Options
 }
 
 func keyAddrOf(label string) string { return string(node.KeyAddr(label)) }
@@ -123,6 +124,13 @@ func (w *l2World) own(owners []string) bool {
 func (w *l2World) fail(m mismatch) *core.Violation {
 	if w.planClass != "" && (strings.HasPrefix(m.Inv, "validators.") || strings.HasPrefix(m.Inv, "plan.") || strings.HasPrefix(m.Inv, "engine.")) {
 		m.Key = "plan/" + w.planClass
+	}
+	switch m.Inv {
+	case "complete.relay", "complete.relaybatch", "complete.bridgeinfo", "auth.finalize-deposit", "auth.set-bridge-info":
+		// while the executor list is the one a plan installed, who may act as executor is also C14's business
+		if w.planExecs != "" && w.planExecs == fmt.Sprint(w.m.Params.BridgeExecutors) {
+			m.Owners = append(append([]string{}, m.Owners...), "C14")
+		}
 	}
 	if w.own(m.Owners) {
 		return w.r.Viol(m.Inv, m.Key, "%s", m.Msg)
@@ -157,6 +165,11 @@ func newL2WorldOpt(r *core.Run, p *l2Profile, fixedBridge uint64, bases []string
 	w.bridgeID = 1 + uint64(r.Intn(3))
 	nb := 1 + r.Intn(3)
 	w.bases = []string{"uinit", "uusdc", "ibc/27394FB092D2ECCD56123C74F36E4C1F926001CEADA9CA97EA622B25F41E5EB2"}[:nb]
+	if r.Chance(1, 4) {
+		// L1 denoms of the greatest legal length (and just below it)
+		long := "factory/" + strings.Repeat("x", 119)
+		w.bases = append(w.bases, long+"a", long[:116])
+	}
 	if fixedBridge != 0 {
 		w.bridgeID = fixedBridge
 		w.bases = bases
@@ -474,6 +487,7 @@ func (w *l2World) genOp(spec *modelL2, bc blockCtx) ([]sdk.Msg, string, string) 
 		if w.r.Chance(1, 12) {
 			sender = w.outsider
 		}
+		sender = spell(w.r, sender)
 		msg := w.depositMsg(spec, seq, sender)
 		if w.r.Chance(1, 15) && len(spec.Pairs) > 0 {
 			// sloppy executor: names a different base denom for a known L2 denom
@@ -600,10 +614,10 @@ func (w *l2World) genOp(spec *modelL2, bc blockCtx) ([]sdk.Msg, string, string) 
 			}
 		case 2:
 			// rotate the executor list
-			n := 1 + w.r.Intn(3)
+			n := w.r.Intn(4) // an empty list is legal: nobody is executor then
 			np.BridgeExecutors = nil
 			for i := 0; i < n; i++ {
-				np.BridgeExecutors = append(np.BridgeExecutors, node.AddrN("executor", w.r.Intn(4)).String())
+				np.BridgeExecutors = append(np.BridgeExecutors, spell(w.r, node.AddrN("executor", w.r.Intn(4)).String()))
 			}
 		case 3:
 			np.Admin = []string{w.admin, w.ustr[0], w.outsider}[w.r.Intn(3)]
@@ -1232,7 +1246,7 @@ func (w *l2World) registerPlan(bc blockCtx) *core.Violation {
 	nexec := 1 + r.Intn(3)
 	var execs []string
 	for i := 0; i < nexec; i++ {
-		execs = append(execs, node.AddrN("executor", r.Intn(5)).String())
+		execs = append(execs, spell(r, node.AddrN("executor", r.Intn(5)).String()))
 	}
 	pkJSON, err := w.enc.Codec.MarshalInterfaceJSON(node.ValKey(keyLbl).PubKey())
 	if err != nil {
@@ -1294,6 +1308,7 @@ func (w *l2World) applyPlanToModel(p *node.PlanReg) {
 	op, _ := sdk.ValAddressFromBech32(opStr)
 	w.m.Vals[opStr] = &mVal{Operator: opStr, OpBytes: op, PubKey: node.ValKey(w.planKey[p.Height]).PubKey().Bytes(), Power: 1, Moniker: p.Moniker}
 	w.m.Params.BridgeExecutors = append([]string{}, p.NextExecutors...)
+	w.planExecs = fmt.Sprint(p.NextExecutors)
 }
 
 // sideTraffic is what a serving node meets between the consensus calls: clients
@@ -1377,4 +1392,13 @@ func setInnerSigner(msg sdk.Msg, signer string) bool {
 		return false
 	}
 	return true
+}
+
+// spell returns the address as clients write it (lower case) or, now and then, in the other legal bech32
+// spelling (all upper case): the same account, another string.
+func spell(r *core.Run, addr string) string {
+	if r.Chance(1, 10) {
+		return strings.ToUpper(addr)
+	}
+	return addr
 }
